@@ -79,6 +79,12 @@ type inst struct {
 	log  []ev
 	cnt  *counters
 	note string
+	// emptied: the cache has been non-empty and became empty again at least
+	// once. It is part of the state key: an implementation may carry hidden
+	// state across such a reset (a replaced index map, a stale cursor) that
+	// the hook does not show, and a finer key only costs time.
+	emptied bool
+	used    bool
 }
 
 func newInst(c *cfg, cnt *counters) *inst {
@@ -137,6 +143,9 @@ func (s *inst) Key() string {
 		} else {
 			fmt.Fprintf(&sb, " %d:%d=%d", e.Key, rank[e.Clock], e.Value)
 		}
+	}
+	if s.emptied {
+		sb.WriteString(" E")
 	}
 	sb.WriteString(" | ref")
 	for _, k := range s.ref.order {
@@ -233,6 +242,11 @@ func (s *inst) Apply(o op, check bool) *mc.Failure {
 		r.order, r.val, r.size = nil, map[int]int{}, 0
 	default:
 		return mc.Failf(0, "unknown op %v", o)
+	}
+	if len(r.val) > 0 {
+		s.used = true
+	} else if s.used {
+		s.emptied = true
 	}
 	if !check {
 		return nil
